@@ -49,6 +49,7 @@ let runners : (string * (z list -> z list)) list = [
   ("header", run_header);
   ("rf24", run_rf24);
   ("net", run_net);
+  ("replay", run_replay);
 ]
 
 (* ---------- the world server: one mutable world shared by the SPI shims of a run ---------- *)
